@@ -27,9 +27,15 @@ def device_configs(behaviours: list[str]) -> list[tuple[str, bool, str]]:
     return [(a, pm, b) for a in ADDRS for pm in (False, True) for b in behaviours]
 
 
-def run_write(pop: tuple[tuple[str, bool, str], ...]) -> tuple[list[tuple[str, str]], str]:
+TIMINGS = ["late", "first-with-con", "all-with-con"]
+
+
+def run_write(pop: tuple[tuple[str, bool, str], ...], timing: str = "late") -> tuple[list[tuple[str, str]], str]:
     viols: list[tuple[str, str]] = []
     devs = [Device(f"dev{i}", a, pm, b, serial=bytes((0, 0, 0, 0, 0, i + 1))) for i, (a, pm, b) in enumerate(pop)]
+    progs = [d for d in devs if d.prog_mode]
+    for d in progs[: 1 if timing == "first-with-con" else len(progs) if timing == "all-with-con" else 0]:
+        d.fast = True
     with BusWorld(devs) as w:
         before = [str(d.address) for d in devs]
         t = w.spawn(nm_individual_address_write(w.xknx, TARGET), name="harness-user")
@@ -45,7 +51,7 @@ def run_write(pop: tuple[tuple[str, bool, str], ...]) -> tuple[list[tuple[str, s
         # reference, from the statement.  A device that never reacts to a connection attempt is indistinguishable from an absent one.
         prog = [i for i, (a, pm, b) in enumerate(pop) if pm]
         holders = [i for i, (a, pm, b) in enumerate(pop) if a == TARGET and b != "silent"]
-        ctxs = f"population={pop} outcome={outcome} writes={[str(tg.payload.address) for tg in writes]} restarts to {[str(tg.destination_address) for tg in restarts]} addresses after={[str(d.address) for d in devs]}"
+        ctxs = f"population={pop} answers={timing} outcome={outcome} writes={[str(tg.payload.address) for tg in writes]} restarts to {[str(tg.destination_address) for tg in restarts]} addresses after={[str(d.address) for d in devs]}"
         if writes:
             if len(prog) != 1:
                 viols.append((f"address-written-with-{len(prog)}-devices-in-programming-mode", ctxs))
@@ -82,9 +88,12 @@ def run_write(pop: tuple[tuple[str, bool, str], ...]) -> tuple[list[tuple[str, s
 
 def run_serial(case: tuple[Any, ...]) -> tuple[list[tuple[str, str]], str]:
     """(operation, device serials/addresses, requested serial, stray response kind)"""
-    op, devspec, want_serial, stray = case
+    op, devspec, want_serial, stray = case[:4]
+    timing = case[4] if len(case) > 4 else "late"
     viols: list[tuple[str, str]] = []
     devs = [Device(f"dev{i}", a, False, "normal", serial=s) for i, (s, a) in enumerate(devspec)]
+    for d in devs:
+        d.fast = timing != "late"
     with BusWorld(devs) as w:
         if stray != "none":
             other_serial = S2 if want_serial == S1 else S1
@@ -108,7 +117,7 @@ def run_serial(case: tuple[Any, ...]) -> tuple[list[tuple[str, str]], str]:
         exc = texc(t)
         outcome = "ok" if exc is None else type(exc).__name__
         owners = [d for d in devs if d.serial == want_serial]
-        ctxs = f"op={op} devices={[(d.serial.hex(), before[d.name]) for d in devs]} requested={want_serial.hex()} stray={stray} outcome={outcome} result={t.result() if exc is None else exc!r} after={[str(d.address) for d in devs]}"
+        ctxs = f"op={op} devices={[(d.serial.hex(), before[d.name]) for d in devs]} requested={want_serial.hex()} stray={stray} answers={timing} outcome={outcome} result={t.result() if exc is None else exc!r} after={[str(d.address) for d in devs]}"
         if exc is not None and not isinstance(exc, XKNXException):
             viols.append((exc_sig("serial-procedure-escape", exc), ctxs))
         if op == "read" and exc is None:
@@ -147,7 +156,17 @@ def run_authorize(free: int, client: int) -> list[tuple[str, str]]:
     return viols
 
 
-def write_cases(thorough: bool) -> list[tuple[tuple[str, bool, str], ...]]:
+def write_cases(thorough: bool) -> list[tuple[tuple[tuple[str, bool, str], ...], str]]:
+    out = []
+    for pop in write_pops(thorough):
+        nprog = sum(1 for _a, pm, _b in pop if pm)
+        # response timing relative to the client's L_Data.con matters only for devices that answer the broadcast read
+        for timing in TIMINGS[: 1 if nprog == 0 else 2 if nprog == 1 else 3]:
+            out.append((pop, timing))
+    return out
+
+
+def write_pops(thorough: bool) -> list[tuple[tuple[str, bool, str], ...]]:
     full = device_configs(BEHAVIOURS)
     red = device_configs(["normal", "silent", "nak-on-data"])
     out: list[tuple[tuple[str, bool, str], ...]] = [()]
@@ -166,7 +185,8 @@ def serial_cases() -> list[tuple[Any, ...]]:
         for ds in devsets:
             for want in (S1, S2):
                 for stray in ("none", "stray-other-serial", "stray-from-target-address", "stray-address-response"):
-                    out.append((op, ds, want, stray))
+                    for timing in ("late", "with-con"):
+                        out.append((op, ds, want, stray, timing))
     return out
 
 
@@ -177,23 +197,24 @@ def worker(k: int, n: int, thorough: bool) -> Part:
     part = Part()
     wc = write_cases(thorough)
     for i in range(k, len(wc), n):
-        viols, outcome = run_write(wc[i])
+        pop, timing = wc[i]
+        viols, outcome = run_write(pop, timing)
         part.evaluations += 1
         part.traces += 1
         part.outcomes["write:" + outcome] += 1
-        if len(wc[i]) > 1:
+        if len(pop) > 1:
             part.nontrivial += 1
         for s, d in viols:
-            part.viol(s, d, ["write", [list(x) for x in wc[i]]], rank=(len(wc[i]), i))
+            part.viol(s, d, ["write", [list(x) for x in pop], timing], rank=(len(pop), TIMINGS.index(timing), i))
         if i < 2:
-            part.sample(["write", [list(x) for x in wc[i]]])
+            part.sample(["write", [list(x) for x in pop], timing])
     sc = serial_cases()
     for i in range(k, len(sc), n):
         viols, outcome = run_serial(sc[i])
         part.evaluations += 1
         part.outcomes[f"serial-{sc[i][0]}:" + outcome] += 1
         for s, d in viols:
-            part.viol(s, d, ["serial", sc[i][0], [[s_.hex(), a] for s_, a in sc[i][1]], sc[i][2].hex(), sc[i][3]], rank=(len(sc[i][1]), i))
+            part.viol(s, d, ["serial", sc[i][0], [[s_.hex(), a] for s_, a in sc[i][1]], sc[i][2].hex(), sc[i][3], sc[i][4]], rank=(len(sc[i][1]), i))
     levels = [(f, c) for f in range(16) for c in range(16)]
     for i in range(k, len(levels), n):
         viols = run_authorize(*levels[i])
@@ -209,7 +230,7 @@ def run(ctx: Ctx) -> None:
     ctx.rule = (
         f"the real management procedures over real Management/P2PConnection/CEMIHandler on the virtual loop against a simulated bus of devices (address in {ADDRS}, programming mode on/off, behaviour in "
         f"{BEHAVIOURS}): nm_individual_address_write(1.1.5) on ALL populations of 0..3 devices over all 30 device configurations"
-        f"{' and all 4-device populations over 3 behaviours' if ctx.thorough else ''} ({len(wc)} buses); the serial-number read/write procedures on 7 bus populations x requested serial x stray responses (another serial, from the target "
+        f"{' and all 4-device populations over 3 behaviours' if ctx.thorough else ''} x the timing of the devices' answers to the broadcast read (after the client's L_Data.con, or the first / all answers in the same read as the confirmation, i.e. handled before send_broadcast returns) ({len(wc)} buses); the serial-number read/write procedures on 7 bus populations x requested serial x stray responses x answer timing (another serial, from the target "
         "address, an address response); dmp_authorize2_r_co over ALL 16x16 (free, client) access levels. Oracle: IndividualAddressWrite is broadcast only with exactly one device in programming mode and no "
         "other present device holding the address (a device that never reacts to a connection attempt counts as absent); restarts go only to the target address; no address conflict is created; success only "
         "with the programmed device at the address; serial procedures follow only the requested serial; authorize2 returns min(free, client) and leaves the device at that level."
@@ -220,7 +241,7 @@ def run(ctx: Ctx) -> None:
 
 def replay(case: Any) -> list[tuple[str, str]]:
     if case[0] == "write":
-        return run_write(tuple(tuple(x) for x in case[1]))[0]
+        return run_write(tuple(tuple(x) for x in case[1]), case[2] if len(case) > 2 else "late")[0]
     if case[0] == "serial":
-        return run_serial((case[1], tuple((bytes.fromhex(s), a) for s, a in case[2]), bytes.fromhex(case[3]), case[4]))[0]
+        return run_serial((case[1], tuple((bytes.fromhex(s), a) for s, a in case[2]), bytes.fromhex(case[3]), case[4], case[5] if len(case) > 5 else "late"))[0]
     return run_authorize(case[1], case[2])
